@@ -237,7 +237,7 @@ def examine(case):
 
 def plan(tier, seed):
     if tier == "quick":
-        return [{"n": 95, "sub": 4} for _ in range(16)]
+        return [{"n": 250, "sub": 6} for _ in range(16)]
     return [{"n": 3000, "sub": 38} for _ in range(16)]
 
 
